@@ -1223,6 +1223,9 @@ class Executor:
       if v is None: continue
       if isinstance(v,B): st.env[nm]=B(st.fresh_bool(nm))
       elif isinstance(v,I): st.env[nm]=I(st.fresh_int(nm))
+      elif isinstance(v,NoneV):                        # `x = None` before the loop, an object (or None) after some iterations
+        from . import symcoll
+        st.env[nm]=Opq(z3.Const(f"{nm}@loop!{st.nextid[0]}",symcoll.Obj),'obj'); st.nextid[0]+=1
       elif isinstance(v,Opq) and z3.is_expr(v.t):      # an opaque object reference: any object of that kind
         st.env[nm]=Opq(z3.Const(f"{nm}@loop!{st.nextid[0]}",v.t.sort()),v.kind); st.nextid[0]+=1
       elif isinstance(v,Ref) and v.cls=='dict' and (v.id,'dom') in st.heap:
